@@ -98,13 +98,14 @@ type GroupSpec struct {
 }
 
 type ClusterSpec struct {
-	Groups  []GroupSpec // rule groups configured through the group API
-	Restart bool        // a NEW RuleManager is initialised on the same storage before the check (PD restart / leader change)
-	Cfg     CfgSpec
-	Stores  []StoreSpec
-	Region  RegionSpec
-	Rules   []RuleSpec
-	Tags    []string // generator features, for the histogram
+	Groups          []GroupSpec // rule groups configured through the group API
+	DefaultRuleOnly bool        // placement rules on, but only the default rule PD derives from the replication config
+	Restart         bool        // a NEW RuleManager is initialised on the same storage before the check (PD restart / leader change)
+	Cfg             CfgSpec
+	Stores          []StoreSpec
+	Region          RegionSpec
+	Rules           []RuleSpec
+	Tags            []string // generator features, for the histogram
 }
 
 // ---------- label tables (ids of coq/model/C10_Checker.v) ----------
@@ -442,6 +443,11 @@ func Generate(r *rng.R, o GenOpt) ClusterSpec {
 			tag("rules:groups")
 		}
 		c.Restart = r.Pct(50)
+		if r.Pct(15) {
+			// only the default rule, derived by PD from max-replicas / location-labels (and meant to follow isolation-level)
+			c.DefaultRuleOnly = true
+			tag("rules:default-rule-only")
+		}
 		if c.Restart {
 			tag("rules:manager-restarted")
 		}
@@ -578,7 +584,11 @@ func Build(spec ClusterSpec) *Built {
 	region := core.NewRegionInfo(meta, leader, core.WithDownPeers(down), core.WithPendingPeers(pend),
 		core.SetApproximateSize(10), core.SetApproximateKeys(1000))
 	if spec.Cfg.Rules {
-		for _, ru := range spec.Rules {
+		rulesToSet := spec.Rules
+		if spec.DefaultRuleOnly {
+			rulesToSet = nil
+		}
+		for _, ru := range rulesToSet {
 			grp := ru.Group
 			if grp == "" {
 				grp = "pd"
@@ -591,7 +601,9 @@ func Build(spec ClusterSpec) *Built {
 			}
 			_ = tc.RuleManager.SetRule(pr) // a rule that matches no store / has an invalid shape is rejected by PD: not installed
 		}
-		_ = tc.RuleManager.DeleteRule("pd", "default") // refused when no voter rule would remain
+		if !spec.DefaultRuleOnly {
+			_ = tc.RuleManager.DeleteRule("pd", "default") // refused when no voter rule would remain
+		}
 		for _, g := range spec.Groups {
 			_ = tc.RuleManager.SetRuleGroup(&placement.RuleGroup{ID: g.ID, Index: g.Index, Override: g.Override})
 		}
@@ -821,7 +833,10 @@ func (bt *Built) CoqConfig() string {
 		b(o.IsLocationReplacementEnabled()), b(o.IsPlacementRulesEnabled()), b(joint), bt.CoqReject())
 }
 
-func coqRule(r *placement.Rule) string {
+// coqRule prints a rule. ORACLE: the default rule pd/default stands for the replication configuration (PD derives it from
+// max-replicas and location-labels and keeps it in sync); when it carries no isolation level of its own, the configured
+// replication.isolation-level is what its peers have to respect.
+func coqRule(r *placement.Rule, cfgIso string) string {
 	role := map[placement.PeerRoleType]string{placement.Voter: "RVoter", placement.Leader: "RLeader", placement.Follower: "RFollower", placement.Learner: "RLearner"}[r.Role]
 	var cs []string
 	for _, c := range r.LabelConstraints {
@@ -832,7 +847,11 @@ func coqRule(r *placement.Rule) string {
 		}
 		cs = append(cs, fmt.Sprintf("LCons %d %s %s", KeyID(c.Key), op, zl(vs)))
 	}
-	return fmt.Sprintf("Rule %s %d %s %s %d", role, r.Count, zl(cs), keyList(r.LocationLabels), isoID(r.IsolationLevel))
+	iso := r.IsolationLevel
+	if iso == "" && r.GroupID == "pd" && r.ID == "default" {
+		iso = cfgIso
+	}
+	return fmt.Sprintf("Rule %s %d %s %s %d", role, r.Count, zl(cs), keyList(r.LocationLabels), isoID(iso))
 }
 
 // CoqFit prints the real placement fit (empty when placement rules are off).
@@ -843,7 +862,7 @@ func (bt *Built) CoqFit() (string, *placement.RegionFit) {
 	fit := bt.TC.FitRegion(bt.Region)
 	var rfs []string
 	for _, rf := range fit.RuleFits {
-		rfs = append(rfs, fmt.Sprintf("RuleFit (%s) %s %s", coqRule(rf.Rule), coqPeers(rf.Peers), coqPeers(rf.PeersWithDifferentRole)))
+		rfs = append(rfs, fmt.Sprintf("RuleFit (%s) %s %s", coqRule(rf.Rule, bt.Spec.Cfg.Iso), coqPeers(rf.Peers), coqPeers(rf.PeersWithDifferentRole)))
 	}
 	return fmt.Sprintf("Fit %s %s", "["+strings.Join(rfs, ";\n      ")+"]", coqPeers(fit.OrphanPeers)), fit
 }
